@@ -304,6 +304,13 @@ func (f *fetcher) getFromCacheOrFetch(req *http.Request, key cache.CacheKey, cli
 func (f *fetcher) dedupFetch(req *http.Request, key cache.CacheKey, clientHd *headers.HeaderDirectives) (fetched fetchResult, err error) {
 	slog.Debug("Attempting to dedup fetch...")
 
+	if req.Method == http.MethodGet && req.ContentLength != 0 {
+		// A GET that carries a body is relayed as it is: the body is not part of the cache key, and once the
+		// fetch below has sent it upstream it cannot be sent again when the answer turns out not to be cacheable.
+		metrics.Global.Requests.NonCoalescedRequests.Increment()
+		return f.fetchDirectlyFromUpstream(req)
+	}
+
 	shouldCoalesce := !clientHd.Range.IsPresent() && req.Method == http.MethodGet
 	if !shouldCoalesce {
 		// These requests also aren't cacheable, so they just go straight to upstream..
